@@ -42,8 +42,8 @@ def run(res, tier, seed, replay):
         "resistance or one-wayness is proved (a different square with consistent (w, r, gamma) needs a new oracle pre-image: named limit)",
         "square roots and residuosity test of mpz_sqrtm.cc are a Section oracle (root^2 = value mod m, all roots listed): property C09",
         "mpz_jacobi, mpz_probab_prime_p are Section oracles; check_accept_implies states Jacobi(y,m)=1 in terms of that oracle",
-        "the uninitialised export buffer is an explicit argument `heap` of the model; theorems hold for every heap, the correspondence run supplies zeros "
-        "and skips records whose square is 0 (verdict depends on stale heap bytes: finding verify-zero-stale-buffer)",
+        "the uninitialised export buffers are an explicit argument `heap` of the model; verify is proved independent of it, decrypt reads it only "
+        "for a zero root (unreachable: the residuosity test refuses 0); the correspondence run supplies zeros",
         "negative moduli reaching the NIZK stages (mpz_powm with negative exponent) are outside the model (`Unmodelled`)"]
     t0 = time.time()
     vpl.proof_stage(res, LIBS)
